@@ -472,7 +472,9 @@ def run_property(pid, tier, only=None):
     if harness:
         ev["coverage"]["harness_errors"] = harness[:3]
     os.makedirs(os.path.join(VERIF, "evidence"), exist_ok=True)
-    if not only:
+    # evidence describes the tree the manifest commands run on: partial runs (--only) and runs against another tree
+    # (tools/seedtest.sh sets VERIF_NO_EVIDENCE) leave the file alone
+    if not only and not os.environ.get("VERIF_NO_EVIDENCE"):
         with open(os.path.join(VERIF, "evidence", pid + ".json"), "w") as f:
             json.dump(ev, f, indent=1, default=_default)
 
